@@ -764,6 +764,16 @@ Proof.
   split; apply complete_true; assumption.
 Qed.
 
+Lemma verify_cover_intro : forall fs sub n,
+  (forall k, (k < n)%nat -> In k sub) ->
+  (forall k, In k sub -> fs (PFile (Shank k Ap) FBin) = Complete /\ fs (PFile (Shank k Ap) FMeta) = Complete) ->
+  verify_cover fs sub n = true.
+Proof.
+  intros fs sub n Hc Ha. unfold verify_cover. apply andb_true_iff. split; apply forallb_forall.
+  - intros k Hk. apply in_seq in Hk. apply mem_In. apply Hc. lia.
+  - intros k Hk. destruct (Ha k Hk) as [A B]. apply andb_true_iff. split; apply complete_true; assumption.
+Qed.
+
 Lemma sverify_ok_spec : forall v rs rs', is_sverify v = true -> step_sem v rs = Ok rs' ->
   r_checked rs' = true /\ r_fs rs' = r_fs rs /\
   forall k, (k < verify_n v)%nat ->
@@ -949,27 +959,30 @@ Qed.
 (* Forced re-run: from ANY directory in which the input exists, a fault-free *)
 (* overwrite=True run completes with a full set of valid outputs             *)
 (* ====================================================================== *)
-Lemma prep_one_true_run : forall fs0 k rs,
-  exec (prep_one true fs0 k) rs =
+Lemma prep_one_true_run : forall ow fs0 k rs,
+  negb (present fs0 (PDir k)) || ow = true ->
+  exec (prep_one ow fs0 k) rs =
   (mkR (upd (upd (upd (r_fs rs) (PDir k) Complete) (PFile (Shank k Ap) FBin) Partial)
             (PFile (Shank k Lf) FBin) Partial) (r_checked rs), None).
 Proof.
-  intros. unfold prep_one. rewrite orb_true_r.
+  intros ow fs0 k rs Hc. unfold prep_one. rewrite Hc.
   repeat (cbn [exec step_sem dir_ok r_fs r_checked]; unfold present; upd_simp; cbn [fstate_eqb negb]).
   reflexivity.
 Qed.
 
-Lemma prep_list_run : forall fs0 ks rs, exists rs',
-  exec (flat_map (prep_one true fs0) ks) rs = (rs', None) /\ r_checked rs' = r_checked rs /\
+Lemma prep_list_run : forall ow fs0 ks rs,
+  (forall k, In k ks -> negb (present fs0 (PDir k)) || ow = true) -> exists rs',
+  exec (flat_map (prep_one ow fs0) ks) rs = (rs', None) /\ r_checked rs' = r_checked rs /\
   (forall q, r_fs rs q <> Absent -> r_fs rs' q <> Absent) /\
   (forall k, In k ks -> r_fs rs' (PFile (Shank k Ap) FBin) <> Absent /\
                         r_fs rs' (PFile (Shank k Lf) FBin) <> Absent).
 Proof.
-  intros fs0. induction ks as [|k ks IH]; intros rs.
+  intros ow fs0. induction ks as [|k ks IH]; intros rs Hcond.
   - exists rs. cbn. repeat split; auto; intros ? [].
-  - cbn [flat_map]. rewrite exec_app, prep_one_true_run.
+  - cbn [flat_map]. rewrite exec_app, prep_one_true_run by (apply Hcond; left; reflexivity).
     destruct (IH (mkR (upd (upd (upd (r_fs rs) (PDir k) Complete) (PFile (Shank k Ap) FBin) Partial)
                            (PFile (Shank k Lf) FBin) Partial) (r_checked rs))) as [rs' [Hx [Hc [Hm Hk]]]].
+    { intros k' Hk'. apply Hcond. right; exact Hk'. }
     exists rs'. split; [exact Hx|]. split; [exact Hc|]. split.
     + intros q Hq. apply Hm. cbn. unfold upd.
       repeat (destruct (path_eqb _ _); [discriminate|]). exact Hq.
@@ -1080,15 +1093,19 @@ Definition final24_ok (n : nat) (o : opts) (fs : fsys) : Prop :=
     fs (PFile (Shank k Ap) FMeta) = Complete /\ fs (PFile (Shank k Lf) FMeta) = Complete /\
     out_ok (o_comp o) fs (Shank k Ap) /\ out_ok (o_comp o) fs (Shank k Lf).
 
-Lemma forced24_exec : forall n w' o tf fs,
-  fs (PFile Orig tf) <> Absent ->
-  exists rs', exec (plan24 n (S w') o true None tf fs) (mkR fs false) = (rs', None) /\
+Lemma run24_exec : forall n w' o ow tf fs,
+  already24 ow fs n = false -> fs (PFile Orig tf) <> Absent ->
+  exists rs', exec (plan24 n (S w') o ow None tf fs) (mkR fs false) = (rs', None) /\
     r_checked rs' = o_post o /\ final24_ok n o (r_fs rs') /\
     r_fs rs' (PFile Orig tf) = (if o_post o && o_del o then Absent else fs (PFile Orig tf)) /\
     forall f, f <> tf -> r_fs rs' (PFile Orig f) = fs (PFile Orig f).
 Proof.
-  intros n w' o tf fs Hin. unfold plan24. rewrite already24_true_ow.
-  destruct (prep_list_run fs (seq 0 n) (mkR fs false)) as [rs1 [E1 [C1 [M1 K1]]]].
+  intros n w' o ow tf fs Hal Hin. unfold plan24. rewrite Hal.
+  assert (Hcond : forall k, In k (seq 0 n) -> present fs (PDir k) && negb ow = false).
+  { intros k Hk. unfold already24 in Hal. rewrite <- not_true_iff_false in Hal. rewrite existsb_exists in Hal.
+    destruct (present fs (PDir k) && negb ow) eqn:E; [|reflexivity]. exfalso. apply Hal. exists k. auto. }
+  destruct (prep_list_run ow fs (seq 0 n) (mkR fs false)) as [rs1 [E1 [C1 [M1 K1]]]].
+  { intros k Hk. specialize (Hcond k Hk). destruct (present fs (PDir k)), ow; cbn in *; congruence. }
   destruct (prep_list_dirs _ _ _ _ _ E1) as [_ D1].
   destruct (wins24_run n w' rs1) as [rs2 [E2 [C2 K2]]].
   destruct (metas_list_run Ap (seq 0 n) rs2) as [rs3 [E3 F3]].
@@ -1111,13 +1128,13 @@ Proof.
   assert (C5 : r_checked rs5 = o_post o).
   { subst rs5. cbn in C1. destruct (o_post o); [reflexivity|]. congruence. }
   (* compression *)
-  assert (E6 : exists rs6, exec (if o_comp o then comp24 true n else []) rs5 = (rs6, None) /\
+  assert (E6 : exists rs6, exec (if o_comp o then comp24 ow n else []) rs5 = (rs6, None) /\
              r_checked rs6 = r_checked rs5 /\
              (forall k, (k < n)%nat -> out_ok (o_comp o) (r_fs rs6) (Shank k Ap) /\
                                        out_ok (o_comp o) (r_fs rs6) (Shank k Lf)) /\
              (forall q, (forall k e f, q = PFile (Shank k e) f -> f = FMeta) -> r_fs rs6 q = r_fs rs5 q)).
   { destruct (o_comp o).
-    - destruct (comp_list_run true (seq 0 n) rs5 (seq_NoDup n 0)) as [rs6 [Hx [Hc [Hko Hf]]]].
+    - destruct (comp_list_run ow (seq 0 n) rs5 (seq_NoDup n 0)) as [rs6 [Hx [Hc [Hko Hf]]]].
       { intros k Hk. apply in_seq in Hk. rewrite F5. apply Hbins. lia. }
       exists rs6. split; [exact Hx|]. split; [exact Hc|]. split.
       + intros k Hk. apply Hko. apply in_seq. lia.
@@ -1143,7 +1160,7 @@ Proof.
       unfold body24 in Hsh. cbn [o_post o_comp] in Hsh. rewrite !forallb_app in Hsh.
       apply andb_true_iff in Hsh as [Hsh _]. rewrite forallb_forall in Hsh. auto.
     - eapply (exec_frame _ (mkR fs false)); [exact E1|]. intros s Hs. apply shank_step_orig.
-      pose proof (prep24_shape true fs n) as Hsh. rewrite forallb_forall in Hsh. auto. }
+      pose proof (prep24_shape ow fs n) as Hsh. rewrite forallb_forall in Hsh. auto. }
   assert (E7 : exists rs7, exec (del24 o tf) rs6 = (rs7, None) /\ r_checked rs7 = r_checked rs6 /\
             r_fs rs7 (PFile Orig tf) = (if o_post o && o_del o then Absent else fs (PFile Orig tf)) /\
             forall q, q <> PFile Orig tf -> r_fs rs7 q = r_fs rs6 q).
@@ -1163,7 +1180,7 @@ Proof.
     repeat split.
     + rewrite F6 by (intros; discriminate). rewrite F5, F4, F3 by congruence.
       destruct (wins24_run n w' rs1) as [rsx [Ex _]]. rewrite E2 in Ex. inversion Ex; subst rsx.
-      erewrite exec_frame; [apply D1; [apply in_seq; lia | apply andb_false_r] | exact E2 |].
+      erewrite exec_frame; [apply D1; [apply in_seq; lia | apply Hcond; apply in_seq; lia] | exact E2 |].
       intros s Hs. apply nodir_step_dir.
       pose proof (rest24_nodir n (S w') (mkO false false false) true None FBin) as Hnd.
       unfold body24 in Hnd. cbn [o_post o_comp] in Hnd. rewrite !forallb_app in Hnd.
@@ -1260,6 +1277,34 @@ Lemma go_full : forall plan fs st al rs',
 Proof.
   intros plan fs st al rs' H. unfold go. rewrite H. cbv beta iota zeta. rewrite Nat.ltb_irrefl.
   cbn [out_outcome out_fs out_checked]. auto.
+Qed.
+
+Lemma forced24_exec : forall n w' o tf fs,
+  fs (PFile Orig tf) <> Absent ->
+  exists rs', exec (plan24 n (S w') o true None tf fs) (mkR fs false) = (rs', None) /\
+    r_checked rs' = o_post o /\ final24_ok n o (r_fs rs') /\
+    r_fs rs' (PFile Orig tf) = (if o_post o && o_del o then Absent else fs (PFile Orig tf)) /\
+    forall f, f <> tf -> r_fs rs' (PFile Orig f) = fs (PFile Orig f).
+Proof. intros. apply run24_exec; [apply already24_true_ow | assumption]. Qed.
+
+(* any NP2.4 run that gets past the "already exists" test — overwrite or not — and is not
+   interrupted completes with valid output, from ANY directory *)
+Lemma run24_completes : forall n w' fs t o ow,
+  (t = TBin \/ t = TCbin) -> input_state NP24 n fs t = Present -> already24 ow fs n = false ->
+  let out := run_once NP24 n (S w') fs (mkRun t o ow None None None) in
+  let tf := target_form t in
+  out_outcome out = Status 1 /\ out_checked out = o_post o /\ final24_ok n o (out_fs out) /\
+  out_fs out (PFile Orig tf) = (if o_post o && o_del o then Absent else fs (PFile Orig tf)) /\
+  forall f, f <> tf -> out_fs out (PFile Orig f) = fs (PFile Orig f).
+Proof.
+  intros n w' fs t o ow Ht Hin Hal. cbv zeta.
+  destruct (input_present_orig _ _ _ _ Hin) as [_ [HB HC]].
+  assert (Hp : fs (PFile Orig (target_form t)) <> Absent).
+  { destruct Ht as [-> | ->]; cbn; [rewrite HB by reflexivity | destruct HC as [-> _]; [reflexivity|]]; discriminate. }
+  destruct (run24_exec n w' o ow (target_form t) fs Hal Hp) as [rs' [Hx [Hc [Hf [Ho Hr]]]]].
+  unfold run_once. cbn [r_target r_opts r_ow r_crash r_corrupt r_sub]. rewrite Hin, Hal.
+  destruct (go_full _ fs 1%Z 0%Z rs' Hx) as [G1 [G2 G3]].
+  destruct Ht as [-> | ->]; cbn [target_form] in *; rewrite G1, G2, G3; auto.
 Qed.
 
 Lemma forced24 : forall n w' fs t o,
